@@ -25,6 +25,7 @@ __all__ = [
 
 
 MAX_VALUES_PER_CONCRETISATION = 6_000
+STR_CONCRETISES = False  # str()/format() of a symbolic boolean forks to "True"/"False" (set by harnesses whose code renders fields)
 
 
 class PathAbort(BaseException):
@@ -348,7 +349,10 @@ class SBool:
     def __repr__(self):
         return f"SBool({self.e})"
 
-    __str__ = __repr__
+    def __str__(self):
+        if STR_CONCRETISES:
+            return str(bool(self))
+        return self.__repr__()
 
 
 def _lit(e):
